@@ -39,7 +39,14 @@ def rbFits (tokens : List Tok) (keyLen : Nat) (maxLen : Option Nat) : Bool :=
   | some mll => decide (rbFirstLineLen tokens keyLen ≤ mll)
   | none => false
 
+/-- the first token that is not NEWLINE / WHITESPACE is a COMMENT (it must start its own line) -/
+def rbFirstIsComment (tokens : List Tok) : Bool :=
+  match tokens.find? (fun t => t.1 != .NEWLINE && t.1 != .WHITESPACE) with
+  | some t => t.1 == .COMMENT
+  | none => false
+
 def rbFirstIsHash (tokens : List Tok) : Bool :=
+  !rbFirstIsComment tokens &&
   match tokens.find? (fun t => t.1 != .NEWLINE && t.1 != .WHITESPACE) with
   | some t => t.2.head? == some '#'
   | none => false
@@ -55,7 +62,7 @@ def rebuildValue (tokens : List Tok) (keyLen indentation : Nat) (immediate : Boo
   if rbFits tokens keyLen maxLen && !rbHasNewline tokens then
     -- just copy the tokens; the value fits into one line
     tokens.map tk ++ [Node.tok .NEWLINE ['\n']]
-  else if immediate && rbHasNewline tokens && !rbFirstIsHash tokens then
+  else if rbFirstIsComment tokens || (immediate && rbHasNewline tokens && !rbFirstIsHash tokens) then
     Node.tok .NEWLINE ['\n'] :: (rbGo indentation (rbStrip tokens) true).1
       ++ rbClose (rbGo indentation (rbStrip tokens) true).2
   else
